@@ -966,7 +966,7 @@ func writeWireFuncs(p *pkgInfo, outPath string) {
 		"EncodeTag", "EncodeZigZag32", "EncodeZigZag64", "DecodeZigZag32", "DecodeZigZag64",
 		"Decoder.Offset", "Decoder.Reset", "Decoder.DecodeTag", "Decoder.DecodeUInt64", "Decoder.DecodeInt64", "Decoder.DecodeUInt32",
 		"Decoder.DecodeInt32", "Decoder.DecodeSInt32", "Decoder.DecodeSInt64", "Decoder.DecodeFixed32", "Decoder.DecodeFixed64",
-		"Decoder.DecodeBytes", "Decoder.Skip", "Decoder.DecodeBool", "Decoder.More", "Decoder.Seek", "Decoder.DecodePackedUint64", "Decoder.DecodePackedInt64", "Decoder.DecodePackedSint64", "Decoder.DecodePackedSint32", "Decoder.DecodePackedUint32", "Decoder.DecodePackedInt32", "Decoder.DecodePackedFixed64", "Decoder.DecodePackedFixed32", "Decoder.DecodePackedBool", "Encoder.EncodeBytes", "Encoder.EncodeMapEntryHeader", "Encoder.EncodePackedBool", "Encoder.EncodePackedUInt64", "Encoder.EncodePackedInt32", "Encoder.EncodePackedInt64", "Encoder.EncodePackedUInt32", "Encoder.EncodePackedSInt64", "Encoder.EncodePackedSInt32", "Encoder.EncodeBool",
+		"Decoder.DecodeBytes", "Decoder.Skip", "Decoder.DecodeBool", "Decoder.More", "Decoder.Seek", "Decoder.DecodePackedUint64", "Decoder.DecodePackedInt64", "Decoder.DecodePackedSint64", "Decoder.DecodePackedSint32", "Decoder.DecodePackedUint32", "Decoder.DecodePackedInt32", "Decoder.DecodePackedFixed64", "Decoder.DecodePackedFixed32", "Decoder.DecodePackedBool", "Encoder.EncodeBytes", "Encoder.EncodeMapEntryHeader", "Encoder.EncodeRaw", "Encoder.EncodePackedBool", "Encoder.EncodePackedUInt64", "Encoder.EncodePackedInt32", "Encoder.EncodePackedInt64", "Encoder.EncodePackedUInt32", "Encoder.EncodePackedSInt64", "Encoder.EncodePackedSInt32", "Encoder.EncodeBool",
 		"Encoder.EncodeUInt64", "Encoder.EncodeUInt32", "Encoder.EncodeInt64", "Encoder.EncodeInt32", "Encoder.EncodeSInt32", "Encoder.EncodeSInt64"} {
 		if errs := translateFunc(p, fn, &b); len(errs) > 0 {
 			fmt.Println("wire primitive", fn, "is outside the translatable fragment (Bridge/WireFuncs.lean no longer applies):")
